@@ -35,8 +35,11 @@ def unit(args: dict) -> dict:
     try:
         built = pipeline.build_all(specs)
         prop = args.get("prop", "C08")
+        engine = args.get("engine", "async")
+        run_steps = sched.run_sched if engine == "async" else sched.run_sched_sync
+        out["engine"] = engine
         res, edges = sched.model_check_sched(built, os.path.join(wd, "mc"), maxnow=args["maxnow"], waits=args["waits"],
-                                             depth=args["depth"], props=(prop,), workers=args.get("tlc_workers", 3))
+                                             depth=args["depth"], props=(prop,), workers=args.get("tlc_workers", 3), engine=engine)
         out["states"], out["transitions"], out["edges"] = res.distinct_states, res.states_generated, len(edges)
         if not res.finished or res.returncode != 0:
             out["errors"].append(f"TLC rc={res.returncode} " + "; ".join(res.errors[:3]))
@@ -48,7 +51,7 @@ def unit(args: dict) -> dict:
                 continue
             b = built[e.mi - 1]
             steps = [p.step for p in paths[k]] + [e.step]
-            r = sched.run_sched(b, steps)
+            r = run_steps(b, steps)
             post, log = r[-1]
             out["replayed"] += 1
             if e.frm["config"] != e.to["config"] or any(o[0] == "act" for o in e.out):
@@ -56,7 +59,7 @@ def unit(args: dict) -> dict:
             w = sched.compare(e, post, log)
             if w is None:
                 if e.prop.get(prop):
-                    v = core_check._viol(prop, e.prop[prop], "async", b, steps, e.out, "edge", post, e.frm)
+                    v = core_check._viol(prop, e.prop[prop], engine, b, steps, e.out, "edge", post, e.frm)
                     out["violations"].append(v)
             else:
                 out["divergent"] += 1
@@ -73,7 +76,7 @@ def unit(args: dict) -> dict:
             with open(os.path.join(wd, "tr", "traces.ndjson"), "w") as f:
                 for t in traces:
                     f.write(json.dumps(t) + "\n")
-            cfg = ("SPECIFICATION TSpec\nCONSTANTS\n  MaxNow = 0\n  WaitSteps = {}\n  MaxDepth = 0\n  PropSetS = {}\n"
+            cfg = ("SPECIFICATION TSpec\nCONSTANTS\n  EngineS = \"" + engine + "\"\n  MaxNow = 0\n  WaitSteps = {}\n  MaxDepth = 0\n  PropSetS = {}\n"
                    "ACTION_CONSTRAINT TEmit\nCHECK_DEADLOCK FALSE\n")
             vres = tla.run_tlc("TraceSched", cfg, os.path.join(wd, "tr"), workers=2)
             for v in vres.json_lines:
@@ -81,7 +84,7 @@ def unit(args: dict) -> dict:
                 if v.get(prop):
                     b, steps, r = tctx[v["ti"] - 1]
                     if v["l"] == len(steps):        # the step under test (the path was judged by its own edges)
-                        out["violations"].append(core_check._viol(prop, sorted(v[prop]), "async", b, steps, r[-1][1],
+                        out["violations"].append(core_check._viol(prop, sorted(v[prop]), engine, b, steps, r[-1][1],
                                                                   "trace", r[-1][0], r[-2][0] if len(r) > 1 else None))
             if vres.returncode != 0 or not vres.json_lines:
                 out["errors"].append("trace validation failed: " + "; ".join(vres.errors[:3]))
@@ -114,6 +117,15 @@ def run(prop: str, tier: str, seed: int) -> int:
         specs = gen.family_X(seed, 14 if q else 140)
     units = [{"specs": [sp], "maxnow": 200 if q else 320, "waits": (30,) if q else (20, 45), "depth": 7 if q else 9,
               "tlc_workers": 2, "prop": prop} for sp in specs]
+    if prop in ("C08", "C14"):
+        # the sync engine's timer threads under virtual time (harness/vthreads.py); no coroutine actions, no services
+        for sp in gen.family_X(seed + 7, 8 if q else 80):
+            sp2 = gen.Spec(sched.strip_slow(sp.config), sp.family, sp.label + "-sync")
+            for attr in ("delays", "events", "missing"):
+                if hasattr(sp, attr):
+                    setattr(sp2, attr, getattr(sp, attr))
+            units.append({"specs": [sp2], "maxnow": 200 if q else 320, "waits": (30,) if q else (20, 45), "depth": 7 if q else 9,
+                          "tlc_workers": 2, "prop": prop, "engine": "sync"})
     if NPROC > 1:
         import concurrent.futures as cf
 
